@@ -9,6 +9,11 @@ HOOK_COMMITS = []
 NOT_APPLICABLE = {("C%02d" % i): "check not built yet in this round; see DESIGN.md section 6 for the plan" for i in range(1, 21)}
 
 PROPS = {
+    "C18": {"level": "exploration",
+            "level_text": "Enumeration of every fixed-point latitude and longitude (exhaustive in thorough; seeded stride plus dense windows around all regime boundaries in quick) at every zoom 0..30, compared with a long double evaluation of the canonical tangent formula and with the exact neighbouring coordinate.",
+            "level_note": "Trusted: glibc logl/tanl in 80-bit long double as reference, IEEE double semantics of the build (-O2, no fast-math). Tile properties are checked per axis (tile x depends only on longitude, tile y only on latitude) plus the public Tile API on a boundary grid.",
+            "technique": "exhaustive/strided enumeration + reference formula oracle + neighbour (metamorphic) monotonicity oracle",
+            "assumptions": ["tile x depends only on longitude and tile y only on latitude (true by construction of Tile)"]},
     "C13": {"level": "exploration",
             "level_text": "Enumeration of the finite numeric domains (all int32 coordinates, all uint32 timestamps: exhaustive in thorough, seeded stride in quick), exhaustive short strings over the grammar alphabet, every exponent, all date/time field combinations on a boundary grid, integer strings around every type boundary; each compared with an arbitrary-precision reference written in the harness.",
             "level_note": "Trusted: the harness's decimal-string/__int128 reference and its proleptic-Gregorian calendar code. Long coordinate strings are sampled from a grammar. Leniencies not asserted: explicit '+' for integers, characters after the final Z of a timestamp, INT64_MIN/INT64_MAX as ids (strtoll sentinels).",
@@ -24,6 +29,8 @@ PROPS = {
 }
 
 UNITS = [
+    {"name": "c18_enum", "props": ["C18"], "kind": "enum", "src": "harness/c18_enum.cpp", "flags": "-O2",
+     "quick": {"min_evaluations": 2000000}, "thorough": {"min_evaluations": 5000000000, "case_timeout": 900}},
     {"name": "c13_enum", "props": ["C13"], "kind": "enum", "src": "harness/c13_enum.cpp", "flags": "-O2",
      "quick": {"min_evaluations": 10000000}, "thorough": {"min_evaluations": 8000000000, "case_timeout": 900}},
     {"name": "c14_enum", "props": ["C14"], "kind": "enum", "src": "harness/c14_enum.cpp", "flags": "-O2", "libs": "-lexpat",
